@@ -14,8 +14,11 @@ pub mod model;
 pub mod program;
 pub mod props;
 pub mod refgens;
+pub mod refverify;
+pub mod script;
 pub mod runner;
 pub mod scalars;
+pub mod schedule;
 pub mod tlog;
 
 #[global_allocator]
